@@ -3,7 +3,9 @@
    pattern is the documented formula), evaluation order does not. */
 #ifndef TERM_H
 #define TERM_H
+#ifndef T_NT
 #define T_NT 48
+#endif
 #define T_LEAF 1
 #define T_ADD 2
 #define T_SUB 3
